@@ -269,7 +269,11 @@ func (p *parser) readGsub3() *gtab.LookupTable {
 			p.fatal("expected single glyph, got %v", from)
 		}
 		p.required(itemArrow, "\"->\"")
-		to := p.readGlyphSet()
+		// The order of the alternates is significant, so this is a list
+		// in brackets rather than a (sorted, de-duplicated) glyph set.
+		p.required(itemSquareBracketOpen, "[")
+		to := p.readGlyphList()
+		p.required(itemSquareBracketClose, "]")
 
 		fromGid := from[0]
 		if _, ok := res[fromGid]; ok {
